@@ -204,6 +204,45 @@ REM_HINT = '''
 '''
 
 
+D0 = 'old(self).data@'
+K0 = 'old(self).keys@'
+ID_HIT = f"(bi_denotes::<AnnotationData>(id, Some(old(self).data_idmap.data@), old(self).data_idmap.resolve_temp_ids) is Some && live({D0}, bi_denotes::<AnnotationData>(id, Some(old(self).data_idmap.data@), old(self).data_idmap.resolve_temp_ids).unwrap() as int))"
+KEY_HIT = f"(bi_denotes::<DataKey>(key, Some(old(self).key_idmap.data@), old(self).key_idmap.resolve_temp_ids) is Some && live({K0}, bi_denotes::<DataKey>(key, Some(old(self).key_idmap.data@), old(self).key_idmap.resolve_temp_ids).unwrap() as int))"
+UNCHANGED_DS = 'final(self).data@ == old(self).data@ && final(self).keys@ == old(self).keys@ && final(self).key_data_map@ == old(self).key_data_map@ && final(self).data_idmap.data@ == old(self).data_idmap.data@ && final(self).key_idmap.data@ == old(self).key_idmap.data@'
+FULL_REQ = [('kd_wf', 'old(self).kd_wf()'),
+            ('keys_wf', 'idmap_wf(old(self).keys@, Some(old(self).key_idmap.data@))'),
+            ('data_wf', 'idmap_wf(old(self).data@, Some(old(self).data_idmap.data@))'),
+            ('fits', 'old(self).data@.len() < AnnotationDataHandle::hmax() && old(self).keys@.len() < DataKeyHandle::hmax()'),
+            ('no_merge', '!old(self).config.merge'),
+            # ids that look like temporary ids are outside the claim (stated precondition of StoreFor::insert)
+            ('ids_not_temp_form', 'bi_text(id) is Some ==> !is_temp_form::<AnnotationData>(old(self).data_idmap.resolve_temp_ids, bi_text(id).unwrap())'),
+            ('key_not_temp_form', 'bi_text(key) is Some ==> !is_temp_form::<DataKey>(old(self).key_idmap.resolve_temp_ids, bi_text(key).unwrap())')]
+FULL_ENS = [
+    ('existing_id', f'{ID_HIT} ==> r is Ok && r->Ok_0.idx() == bi_denotes::<AnnotationData>(id, Some(old(self).data_idmap.data@), old(self).data_idmap.resolve_temp_ids).unwrap() && {UNCHANGED_DS}'),
+    ('no_key_no_data', f'!{ID_HIT} && key is None ==> r is Err && {UNCHANGED_DS}'),
+    ('unknown_key_by_handle', f'!{ID_HIT} && !(key is None) && !{KEY_HIT} && bi_text(key) is None ==> r is Err && {UNCHANGED_DS}'),
+    ('key_kept_or_created', f'r is Ok && !{ID_HIT} ==> (if {KEY_HIT} {{ final(self).keys@ == {K0} && final(self).key_idmap.data@ == old(self).key_idmap.data@ }} else {{ '
+                            f'bi_text(key) is Some && final(self).keys@.len() == {K0}.len() + 1 && final(self).keys@.take({K0}.len() as int) =~= {K0} && final(self).keys@.last() is Some && final(self).keys@.last().unwrap().id@ == bi_text(key).unwrap() }})'),
+    ('the_pair', f'r is Ok && !{ID_HIT} ==> live(final(self).data@, r->Ok_0.idx() as int) && veq(final(self).data@[r->Ok_0.idx() as int].unwrap().value, value) '
+                 f'&& final(self).data@[r->Ok_0.idx() as int].unwrap().key.idx() == (if {KEY_HIT} {{ bi_denotes::<DataKey>(key, Some(old(self).key_idmap.data@), old(self).key_idmap.resolve_temp_ids).unwrap() as int }} else {{ {K0}.len() as int }})'),
+    ('reuses', f'!{ID_HIT} && {KEY_HIT} && id is None && safety && has_pair({D0}, DataKeyHandle(bi_denotes::<DataKey>(key, Some(old(self).key_idmap.data@), old(self).key_idmap.resolve_temp_ids).unwrap() as u16), value) ==> r is Ok && {UNCHANGED_DS}'),
+    ('appends_at_most_one', f'final(self).data@ == {D0} || (final(self).data@.len() == {D0}.len() + 1 && final(self).data@.take({D0}.len() as int) =~= {D0} && r is Ok && r->Ok_0.idx() == {D0}.len())'),
+    ('index_exact', 'r is Ok ==> final(self).kd_wf()'),
+    ('vocabulary', 'r is Ok ==> idmap_wf(final(self).keys@, Some(final(self).key_idmap.data@))'),
+]
+DEDUP_HINT_FULL = '''proof {
+            if result is Ok {
+                let d1 = self.data@;
+                assert(d1 =~= vx_d0.push(d1.last()));
+                lemma_kd_push(vx_d0, vx_kdm0, d1.last().unwrap());
+            }
+        }'''
+
+
+import os
+ENABLE_FULL = bool(os.environ.get('VX_FULL_INSERT'))
+
+
 def build():
     u = Unit('u_dataset', serves=['C10', 'C01', 'C02', 'C03'])
     u.use('use std::marker::PhantomData;')
@@ -214,7 +253,7 @@ def build():
         common.handle_impl(u, h, P)
     u.trusted_text(u_map.VX_POSITION, 'external_body vx_position: std Iterator::position semantics + structural == on handles (R-outline)')
     u_map.emit_relationmap(u, P, with_canary=False)
-    req = sc.emit_storefor(u, P)
+    req = sc.emit_storefor(u, P, with_builditem=True)
 
     # ------------------------------------------------------------------ item types
     u.item('src/datakey.rs', 'struct', 'DataKey', keep_derives=[],
@@ -348,17 +387,24 @@ def build():
     # ------------------------------------------------------------------ the vocabulary: data_by_value and the de-duplicating tail of insert_data (C10)
     P10 = ['C10']
     ST = sc.ST
-    u.item(ST, 'enum', 'BuildItem', keep_derives=[])
     u.spec(VOCAB_SPEC, 'contracts/u_dataset.py:VOCAB_SPEC')
     u.impl(ST, "impl<'a, T> BuildItem<'a, T>", [
         Fn('is_none', props=P10, ret='r', ensures=[('none', 'r == (*self is None)')]),
         Fn('to_string', props=P10, ret='r', ensures=[('text', 'match r { Some(t) => bi_text(self) == Some(t@), None => bi_text(self) is None }')]),
+        Fn('is_id', props=P10, ret='r', ensures=[('id', 'r == (bi_text(*self) is Some)')]),
+        # the error value raised for an unresolved request: only its being an error matters
+        Fn('error', props=P10, ret='r', external_body=True),
+    ])
+    u.impl('src/datakey.rs', 'impl DataKey', [
+        Fn('new', props=P10, ret='r', sig_rewrites=[('R-instantiate', r'id: impl Into<String>', 'id: String')],
+           rewrites=[('R-instantiate', r'id: id\.into\(\)', 'id: id')],
+           ensures=[('fields', 'r.id@ == id@ && r.intid is None')]),
     ])
     u.impl('src/annotationdata.rs', 'impl AnnotationData', [
         Fn('new', props=P10, ret='r', ensures=[('fields', 'r.id == id && r.key == key && r.value == value && r.intid is None')]),
     ])
     KEYS_WF = 'idmap_wf(self.keys@, Some(self.key_idmap.data@))'
-    u.impl(DS, 'impl AnnotationDataSet', [
+    DS_FNS = [
         Fn('key', emit_name='key__handle', props=P10, ret='r',
            sig_rewrites=[('R-request', r'key: impl Request<DataKey>', 'key: DataKeyHandle')],
            rewrites=[('R-request', r'self\.get\(key\)\.map\(\|x\| x\)\.ok\(\)', '<Self as StoreFor<DataKey>>::get__handle(self, key).ok()')],
@@ -378,6 +424,22 @@ def build():
            ])},
            ensures=[('found', 'r is Some ==> has_pair(self.data@, key, *value) && exists|i: int| live(self.data@, i) && self.data@[i].unwrap() == *r.unwrap() && r.unwrap().key.idx() == key.idx() && veq(r.unwrap().value, *value)'),
                     ('none', 'r is None && live(self.keys@, key.idx() as int) ==> !has_pair(self.data@, key, *value)')]),
+        Fn('insert_data', emit_name='insert_data__full', props=P10, ret='r',
+           # R-instantiate: the `impl Into<..>` parameters at the types themselves (Into<T> for T is the identity)
+           sig_rewrites=[('R-instantiate', r"id: impl Into<BuildItem<'a, AnnotationData>>", "id: BuildItem<'a, AnnotationData>"),
+                         ('R-instantiate', r"key: impl Into<BuildItem<'a, DataKey>>", "key: BuildItem<'a, DataKey>"),
+                         ('R-instantiate', r'value: impl Into<DataValue> \+ std::fmt::Debug', 'value: DataValue')],
+           rewrites=[('R-instantiate', r'let id = id\.into\(\);', ''), ('R-instantiate', r'let key = key\.into\(\);', ''), ('R-instantiate', r'let value = value\.into\(\);', ''),
+                     ('R-request', r'self\.get\(&id\)', '<Self as StoreFor<AnnotationData>>::get__build(self, &id)'),
+                     ('R-request', r'self\.get\(&key\)', '<Self as StoreFor<DataKey>>::get__build(self, &key)'),
+                     ('R-request', r'self\.insert\(DataKey::new', '<Self as StoreFor<DataKey>>::insert(self, DataKey::new'),
+                     ('R-request', r'self\.insert\(AnnotationData::new', '<Self as StoreFor<AnnotationData>>::insert(self, AnnotationData::new'),
+                     ('R-expect', r'\.expect\(\s*"item must have intid when in store"\s*\)', '.unwrap()'),
+                     ('R-request', r'self\.data_by_value\(datakey_handle, &value\)', 'self.data_by_value__handle(datakey_handle, &value)'),
+                     ('R-expect', r'\.expect\("item must have intid if in store"\)', '.unwrap()')],
+           requires=FULL_REQ, ensures=FULL_ENS,
+           before=[(r're:let result = <Self as StoreFor<AnnotationData>>::insert\(', 'let ghost vx_d0 = self.data@; let ghost vx_kdm0 = self.key_data_map@;')],
+           after=[(r're:let result = <Self as StoreFor<AnnotationData>>::insert\([^;]*;', DEDUP_HINT_FULL, None, 'index_exact')]),
         Fn('insert_data', emit_name='insert_data__dedup', props=P10, ret='r',
            region=('after:let value = value.into();', r're:(?m)^ *result\s*\}\s*\Z',
                    "fn insert_data__dedup<'a>(&mut self, id: BuildItem<'a, AnnotationData>, datakey_handle: DataKeyHandle, value: DataValue, newkey: bool, safety: bool) -> Result<AnnotationDataHandle, StamError>",
@@ -398,5 +460,8 @@ def build():
                                          '&& r->Ok_0.idx() == old(self).data@.len() && final(self).data@.last() is Some && final(self).data@.last().unwrap().key == datakey_handle && final(self).data@.last().unwrap().value == value'),
                     ('index_exact', 'r is Ok ==> final(self).kd_wf()'),
                     ('keys_frame', 'r is Ok ==> final(self).keys@ == old(self).keys@')]),
-    ])
+    ]
+    if not ENABLE_FULL:
+        DS_FNS = [f for f in DS_FNS if f.emit_name != 'insert_data__full']
+    u.impl(DS, 'impl AnnotationDataSet', DS_FNS)
     return u
